@@ -303,14 +303,14 @@ async fn one_run(seed: u64, scenario: &str, pace: u64) {
                 let open: Vec<String> = run.handles.keys().filter(|s| !signalled && !run.is_closed(s)).cloned().collect();
                 let held: Vec<String> = run.handles.keys().cloned().collect();
                 match rng.below(10) {
-                    0..=3 if !open.is_empty() => {
+                    0..=3 if !open.is_empty() && run.nact < 16 => {
                         let s = rng.pick(&open).clone();
                         let a = run.actor(None, None);
                         run.spawn_on(&s, a);
                     }
                     4..=5 if !open.is_empty() => {
                         let s = rng.pick(&open).clone();
-                        if run.depth.get(&s).copied().unwrap_or(1) < 3 {
+                        if run.depth.get(&s).copied().unwrap_or(1) < 3 && run.nsup < 12 {
                             run.sub_on(&s).await;
                         }
                     }
